@@ -50,6 +50,7 @@ type frame struct {
 	panicking bool
 	panic     any
 	d0        int
+	sp0       int
 }
 
 type undoRec struct {
@@ -80,6 +81,8 @@ type Interp struct {
 	logging bool
 	ex      *Explorer // current path state (nil during init)
 	funcsRun map[*ssa.Function]struct{}
+	stack    []value
+	sp       int
 }
 
 func (fr *frame) get(o *opnd) value {
@@ -448,7 +451,15 @@ func (i *Interp) callSSA(caller *frame, fn *ssa.Function, args []value, env []va
 	if i.depth > maxDepth {
 		panic(engineAbort{kind: "truncated", msg: "call depth limit"})
 	}
-	fr.regs = make([]value, cf.nslots)
+	sp0 := i.sp
+	if i.sp+cf.nslots <= len(i.stack) {
+		fr.regs = i.stack[i.sp : i.sp+cf.nslots : i.sp+cf.nslots]
+		clear(fr.regs)
+		i.sp += cf.nslots
+	} else {
+		fr.regs = make([]value, cf.nslots)
+	}
+	fr.sp0 = i.sp
 	fr.block = cf.blocks[0]
 	for k, s := range cf.params {
 		fr.regs[s] = args[k]
@@ -460,6 +471,7 @@ func (i *Interp) callSSA(caller *frame, fn *ssa.Function, args []value, env []va
 		runFrame(fr)
 	}
 	i.depth = fr.d0
+	i.sp = sp0
 	return fr.result
 }
 
@@ -500,6 +512,7 @@ func runFrame(fr *frame) {
 			}
 		}
 		fr.i.depth = fr.d0 + 1
+		fr.i.sp = fr.sp0
 	}()
 
 	i := fr.i
